@@ -267,8 +267,11 @@ PROPS = {
         "domains": [{"name": "fingerhist-c12"}],
         "cli": True,
         "trusted": ["status:/sh: commands are assumed side-effect free (they do run in query modes by design)"],
-        "assumptions": ["as C04; remote includes (cache writes) are outside the model"],
-        "level_text": "Theorems: C12_full (every read-only invocation --dry/--status/--list[-all] [--json]/--summary leaves the state unchanged and runs "
+        "assumptions": ["as C04; remote includes (cache writes: the four CacheNode writers of Gen.WriteSites, class remoteCache) are outside the model"],
+        "level_text": "write_sites_reviewed: every os call of the module that creates, changes or removes something in the file system "
+                      "(regenerated typed table Gen.WriteSites with the conditions each writer and each call site of its function sits under) is "
+                      "dry-guarded, guarded at every call site, part of a non-query action or the remote cache - the model's writers are all the writers. "
+                      "Theorems: C12_full (every read-only invocation --dry/--status/--list[-all] [--json]/--summary leaves the state unchanged and runs "
                       "no command - histories may contain `task:` calls whose precondition fails, the one thing that fails under --dry), "
                       "C12_marker_untouched / C12_dry_body_no_onError / C12_dry_failing_call (a failing call under --dry exits `failed` and changes "
                       "nothing: checker.OnError sits under !(e.Dry), onError_unreachable_when_dry, TS4; C12_dry_onError_counterexample for the "
